@@ -15,4 +15,5 @@ CONSTANTS
   FixDropBound = FALSE
   FixDeriveGuards = FALSE
   FixLateTrack = FALSE
+  FixDeleteOnAccept = FALSE
 INVARIANTS BoundedBuf
